@@ -64,6 +64,9 @@ func (u *User) init() error {
 		}
 	}
 
+	// 重新编译权限前丢弃旧的匹配器，否则更新（收窄）权限后旧权限仍然生效
+	u.pushMatchers = u.pushMatchers[:0]
+	u.pullMatchers = u.pullMatchers[:0]
 	initMatchers(u.PushAccess, &u.pushMatchers)
 	initMatchers(u.PullAccess, &u.pullMatchers)
 	return nil
